@@ -63,8 +63,8 @@ impl<M: MemBuilder> AnyVecRaw<M> {
         // 1. construct empty "prototype"
         let mut cloned = self.clone_empty();
 
-        // 2. allocate
-        cloned.mem.expand(self.len);
+        // 2. allocate (fixed-capacity Mem can't expand - ask only if needed)
+        cloned.reserve(self.len);
 
         // 3. copy/clone
         {
